@@ -540,9 +540,10 @@ class Handler(_GC, AbstractHandler):
         task.add_done_callback(lambda _: release_stream())
 
     def cancel(self, stream: 'protocol.Stream') -> None:
-        task = self._tasks.pop(stream)
-        task.cancel()
-        self._cancelled.add(task)
+        task = self._tasks.pop(stream, None)
+        if task is not None:  # finished tasks are collected by __gc_collect__
+            task.cancel()
+            self._cancelled.add(task)
 
     def close(self) -> None:
         for task in self._tasks.values():
